@@ -206,6 +206,14 @@ func run(c *hc.Ctx) error {
 			return err
 		}
 	}
+	// objects reused across calls (one EncryptedMessage / EncryptedMessageData / bin.Buffer for a sequence of
+	// longer-then-shorter, valid-then-truncated frames) must behave like fresh ones
+	for i := c.N(400, 12000); i > 0; i-- {
+		c04shared.ReuseCase(c, &q, "C05")
+		if err := q.MaybeFlush(c); err != nil {
+			return err
+		}
+	}
 	rt.Verify(c)
 	// mutants decided from 2..4 goroutines at once (DecryptFromBuffer has no shared state): verdicts as
 	// in the sequential run, accepted results re-read afterwards
@@ -239,7 +247,7 @@ func run(c *hc.Ctx) error {
 	if err := q.Flush(c); err != nil {
 		return err
 	}
-	c.Res.Rule = "per valid ciphertext (real Cipher.Encrypt, random 2048-bit key, both directions, payload 0..1200 bytes): all 192 single-bit flips of auth_key_id and msg_key, 288 body bit flips (first and last block completely + random), 24 multi-bit edits, truncations and extensions by 1..32 bytes and to 0/1/7/8/23/24/25/39/40 bytes, block drop/swap, reflection to the sending side, foreign keys (own id / same id / same key other id / one-bit-different key). Plus 1 500 / 50 000 correctly keyed hand-sealed frames with length fields and padding around the bounds (reach the error returns behind the msg_key check). Non-trivial = every mutant (must be rejected); the genuine frame (must be accepted) is the trivial control; distinct = distinct input line"
+	c.Res.Rule = "per valid ciphertext (real Cipher.Encrypt, random 2048-bit key, both directions, payload 0..1200 bytes): all 192 single-bit flips of auth_key_id and msg_key, 288 body bit flips (first and last block completely + random), 24 multi-bit edits, truncations and extensions by 1..32 bytes and to 0/1/7/8/23/24/25/39/40 bytes, block drop/swap, reflection to the sending side, foreign keys (own id / same id / same key other id / one-bit-different key). Plus 1 500 / 50 000 correctly keyed hand-sealed frames with length fields and padding around the bounds (reach the error returns behind the msg_key check). Reuse sequences: the same EncryptedMessage (Decode and DecodeWithoutCopy), EncryptedMessageData and bin.Buffer used for 7..9 frames in a row (valid long, the same truncated by whole blocks / by 1..15 bytes, valid short, tampered, sub-envelope) compared with fresh objects at every step. Non-trivial = every mutant (must be rejected); the genuine frame (must be accepted) is the trivial control; distinct = distinct input line"
 	c.PartialNote("rejection of msg_key/body mutations, reflection and same-id foreign keys rests on SHA-256 acting as a MAC (hypothesis MacDiffers of the theorems); the run observes it on every mutant but cannot prove it")
 	return nil
 }
